@@ -122,6 +122,10 @@ class Clock:
 
 def tick_menu(cfg):
     W, R = cfg["window"], cfg["recovery"]
+    if cfg.get("frac_tick"):
+        # advances 0.4 ms short of / past the window: a failure of that age is unambiguously
+        # inside / outside it (no boundary convention involved)
+        return sorted({1, W, W + 0.0032, W - 0.0032, R})
     return sorted({1, max(W - 1, 1), W, W + 1, R})
 
 
